@@ -835,3 +835,77 @@ def _under_none_test(fnode, stmt, name):
             if isinstance(t, ast.Compare) and isinstance(t.left, ast.Name) and t.left.id == name and isinstance(t.ops[0], ast.Is) and const_value(t.comparators[0], 0) is None:
                 return True
     return False
+
+
+def rule_no_nested_pool_wait(ctx):
+    r = RuleResult(
+        "no-nested-pool-wait",
+        "a function that par_reduce runs inside the shared thread pool must not itself submit work to that pool and wait for it (all workers "
+        "can be occupied by such waiters: the reduction never returns). For every call `par_reduce(F, ...)` in quimb/core.py the callable F — "
+        "followed through functools.partial and the resolved calls of quimb.core — either cannot reach get_thread_pool(), or is bound with "
+        "num_threads=1 while maybe_multithread runs its kernel inline for a single thread",
+    )
+    m = ctx.prog.modules.get("quimb.core")
+    if m is None:
+        raise AnalysisError("no-nested-pool-wait: quimb.core not found")
+    funcs = {f.name: f for f in m.all_functions if f.parent is None and not f.is_alias and not isinstance(f.node, ast.Lambda)}
+
+    def reaches_pool(name, seen=None, depth=0):
+        seen = seen or set()
+        if name in seen or depth > 5 or name not in funcs:
+            return None
+        seen.add(name)
+        f = funcs[name]
+        for c in ast.walk(f.node):
+            if isinstance(c, ast.Call):
+                cn = (dotted(c.func) or "").split(".")[-1]
+                if cn == "get_thread_pool":
+                    return [name]
+                # callables handed on as arguments (maybe_multithread(kernel, ...)) are run by the callee, not a route to the pool
+                sub = reaches_pool(cn, seen, depth + 1)
+                if sub:
+                    return [name] + sub
+        return None
+
+    mm = funcs.get("maybe_multithread")
+    inline_single = False
+    if mm is not None:
+        for st in mm.node.body:
+            if isinstance(st, ast.If):
+                for cmp_ in ast.walk(st.test):
+                    if isinstance(cmp_, ast.Compare) and isinstance(cmp_.left, ast.Name) and cmp_.left.id == "num_threads" and isinstance(cmp_.ops[0], ast.Eq) \
+                            and const_value(cmp_.comparators[0], None) == 1 and not any(isinstance(c, ast.Call) and (dotted(c.func) or "").endswith("get_thread_pool") for b in st.body for c in ast.walk(b)):
+                        inline_single = True
+    n = 0
+    for f in funcs.values():
+        # locals that may hold par_reduce (reducer = par_reduce if parallel else functools.reduce)
+        aliases = {"par_reduce"} | {a.targets[0].id for a in ast.walk(f.node) if isinstance(a, ast.Assign) and len(a.targets) == 1 and isinstance(a.targets[0], ast.Name)
+                                    and any(isinstance(y, ast.Name) and y.id == "par_reduce" for y in ast.walk(a.value))}
+        for c in ast.walk(f.node):
+            if not (isinstance(c, ast.Call) and (dotted(c.func) or "").split(".")[-1] in aliases and c.args):
+                continue
+            F = c.args[0]
+            bound = {}
+            target = None
+            if isinstance(F, ast.Call) and (dotted(F.func) or "").endswith("partial") and F.args:
+                target = dotted(F.args[0])
+                bound = {k.arg: k.value for k in F.keywords if k.arg}
+            elif isinstance(F, ast.Name):
+                target = F.id
+            if target is None:
+                continue
+            if target not in funcs:
+                continue   # e.g. operator.add: cannot touch the pool
+            n += 1
+            route = reaches_pool(target)
+            q = f"{f.qualname}->par_reduce({target})"
+            if not route:
+                r.ok(q, sample={"reducer": target, "reaches the pool": False})
+            elif const_value(bound.get("num_threads"), None) == 1 and inline_single:
+                r.ok(q, sample={"reducer": target, "route to the pool": " -> ".join(route), "bound": "num_threads=1 (kernel runs inline)"})
+            else:
+                r.bad(Finding("no-nested-pool-wait", f.qualname,
+                              f"`{src_of(c)[:60]}` runs {target} inside the shared pool, and {' -> '.join(route)} -> get_thread_pool() submits to the same pool and waits: "
+                              "with as many pending pairs as workers the reduction deadlocks", where=f"{m.relpath}:{c.lineno}", operand=target))
+    r.floor(n, 1, "par_reduce calls with a quimb.core reducer")
+    return r
